@@ -497,6 +497,48 @@ class Registry:
                         return c
         return None
 
+    def callee_written_args(self, call):
+        """which arguments a call may write, from the `assigns` clauses of every contract the callee name can denote:
+        set of positional indexes / keyword names / 'self' (receiver); None when some candidate has no contract"""
+        f = call.func
+        name = f.attr if isinstance(f, ast.Attribute) else (f.id if isinstance(f, ast.Name) else None)
+        if name is None:
+            return None
+        if name in ('len', 'int', 'bool', 'isinstance', 'bytes', 'bytearray', 'str', 'range', 'sum', 'min', 'max', 'abs',
+                    'divmod', 'format', 'getattr', 'hasattr', 'sorted', 'list', 'tuple', 'hex', 'bin', 'chr', 'ord',
+                    'float', 'type', 'repr', 'enumerate', 'zip', 'any', 'all', 'reversed', 'copy', 'join', 'decode',
+                    'encode', 'hexlify', 'unhexlify', 'get', 'items', 'keys', 'values', 'bit_length', 'to_bytes',
+                    'from_bytes', 'startswith', 'endswith', 'replace', 'strip', 'lstrip', 'rstrip', 'upper', 'lower') \
+                and not any(q == name or q.endswith('.' + name) for (_r, q, _c, _l) in self.contracts):
+            return set()            # builtins / str / bytes methods do not write their arguments
+        cands = [c for (rel, q, fc, lab), c in self.contracts.items() if q == name or q.endswith('.' + name)]
+        if self.active_contract is not None:
+            fam = {self.active_contract.relpath, 'asn1tools/codecs/__init__.py'}
+            if self.active_contract.relpath.endswith('der.py'):
+                fam.add('asn1tools/codecs/ber.py')
+            if self.active_contract.relpath.endswith('uper.py'):
+                fam.add('asn1tools/codecs/per.py')
+            same = [c for c in cands if c.relpath in fam]
+            if same:
+                cands = same
+        if not cands:
+            return None
+        out = set()
+        for c in cands:
+            order = [p for p in c.param_order if p != 'self']
+            for a in c.assigns:
+                root = a
+                while isinstance(root, (ast.Attribute, ast.Subscript)):
+                    root = root.value
+                if not isinstance(root, ast.Name):
+                    return None
+                if root.id == 'self':
+                    out.add('self')
+                elif root.id in order:
+                    out.add(order.index(root.id))
+                    out.add(root.id)
+        return out
+
     def spec_module_for(self, contract):
         return self.prog.module_by_relpath(contract.relpath) if contract.relpath.startswith(self.prog.package) \
             else self.spec_prog.module_by_relpath(contract.relpath)
@@ -584,6 +626,8 @@ class Registry:
                 return VNone
             if n == 'AbsList':
                 return VAbsList('list')
+            if n == 'AbsDict':
+                return VAbsList('dict')
             if n == 'ValSeq':
                 ln = p.fresh_int(base + '.len')
                 p.assume(ln >= 0)
